@@ -20,7 +20,7 @@ ANCHORS = ['mpilot/params.py:StringParameter.clean', 'mpilot/params.py:NumberPar
 LEVEL = "exploration"
 RULE = ("every parameter class x configuration (must_exist, valid_types of CSV and NetCDF reads, nested ListParameters, ResultParameter "
         "with/without output type and each is_fuzzy) x ~130 raw values of every kind the parser or API delivers x working directory in "
-        "{None, absolute}; plus live contracts during random whole-model runs; distinct by (parameter config, raw value class, wd, outcome class)")
+        "{None, absolute, relative, empty}; plus live contracts during random whole-model runs; distinct by (parameter config, raw value class, wd, outcome class)")
 REQUIRED_COUNTERS = ["clean_calls_judged", "contract_evaluations", "idempotence_checks", "purity_snapshots_compared", "live_double_clean_pairs"]
 ASSUMPTIONS = ["don't-care: what StringParameter makes of non-scalars, bool given to NumberParameter, ints other than 0/1 and numeric strings other than "
                "'0'/'1' given to BooleanParameter, 'nan'/'inf'/underscore literals, relative working directories", "NaN compared NaN-aware"]
@@ -132,6 +132,12 @@ def typed_ok(param, raw, result, program=None):
         for item in result:
             if isinstance(item, Argument):
                 return "list-item-still-wrapped"
+        if isinstance(raw, (list, tuple)) and param.value_type is not None:
+            # item-wise: every item is what the item type makes of *that* item (an int next to an equal decimal stays an int)
+            for ri, item in zip(raw, result):
+                bad = typed_ok(param.value_type, ri.value if isinstance(ri, Argument) else ri, item, program)
+                if bad:
+                    return "item:" + bad
         return None
     if isinstance(param, P.TupleParameter):
         if not isinstance(result, dict) or not all(isinstance(k, str) and isinstance(v, str) for k, v in result.items()):
@@ -236,7 +242,8 @@ def pool(program, d, with_arrays=False):
         "Float", "Integer", "Positive Float", "Positive Integer", "Fuzzy", "float", "Complex",
         os.path.join(d, "in.csv"), os.path.join(d, "missing.csv"), "in.csv", "sub/in.csv", "missing.csv", "./in.csv", "../x.csv", d, "é.csv",
         "A", "F", "U", "Nope", "a", "TupleRes", "NumRes", "TextRes", ["TupleRes", "NumRes"],
-        [], [1, 2], [1.5, 2], ["1", "2.5"], ["1", "x"], ["A", "F"], ["A", "A"], ["F"], ["A", "Nope"], [A, F], [A], [U], [[1], [2, 3]], [[1], 2], [[]], [["A"]],
+        [], [1, 2], [1.5, 2], [1, 1.0], [2.0, 2], [1, 1.0, True], [0, 0.0, False, "0"], ["1", 1, 1.0], [3, 3, 3.0, 3.0], [Argument("x", 1), Argument("x", 1.0)],
+        "V", ["V"], ["A", "V"], program.commands["V"], [program.commands["V"], A], ["1", "2.5"], ["1", "x"], ["A", "F"], ["A", "A"], ["F"], ["A", "Nope"], [A, F], [A], [U], [[1], [2, 3]], [[1], 2], [[]], [["A"]],
         [True, "false", 0], [None], (1, 2), ("A",), [Argument("x", 5)], [Argument("x", "A")], [Argument("x", [1])], [1, [2, [3]]],
         {}, {"a": "b"}, {"a": 1}, {1: 2}, {"k": None}, {"a": "b", "c": "d"}, {"a": [1]},
         A, F, U, float, int, numpy.float64, numpy.uint, str, None, program._foreign[0], program._foreign[1], [program._foreign[0]], [A, program._foreign[1]],
@@ -277,7 +284,7 @@ def cases(ctx):
     ncfg = len(configs())
     idx = 0
     for ci in range(ncfg):
-        for wd in ("none", "abs"):
+        for wd in ("none", "abs", "rel", "empty"):
             if ctx.mine(idx):
                 yield {"kind": "matrix", "config": ci, "wd": wd}
             idx += 1
@@ -292,12 +299,15 @@ def _world(ctx, wd):
     for f in ("in.csv", "sub/in.csv"):
         with open(os.path.join(d, f), "w") as fh:
             fh.write("X\n1\n2\n")
-    program = arr.new_program(working_dir=d if wd == "abs" else None)
+    wdir = d if wd == "abs" else os.path.relpath(d) if wd == "rel" else "" if wd == "empty" else None
+    program = arr.new_program(arr.CSV_LIBS + ("vprobe",), working_dir=wdir)
     arr.standin(program, "A", numpy.ma.array([1.0, 2.0, 3.0]), fuzzy=False)
     arr.standin(program, "F", numpy.ma.array([0.5, -0.5, 1.0]), fuzzy=True)
     # an unfinished command with a declared data output
     cls = program.find_command_class("Copy")
     program.add_command(cls, "U", {"InFieldName": "A"})
+    # an unfinished command of a plugin class that declares no output type
+    program.add_command(program.find_command_class("NoOut"), "V", {})
     # finished producers of non-array results (what user libraries return): a tuple of numeric texts, a number, a text
     for nm, val in (("TupleRes", ("1", "2.5", 3)), ("NumRes", 5), ("TextRes", "7")):
         arr.standin(program, nm, val)
